@@ -130,6 +130,8 @@ def simulator(schedule_perm=None):
                 agents = list(self.agents)
                 p = type(self).perm
                 if p is not None and len(p) == len(agents):
+                    if self.currentTime % 2 == 1:  # the schedule may change from step to step
+                        p = list(reversed(p))
                     return [agents[i] for i in p]
                 return agents
 
@@ -198,6 +200,8 @@ def body_text(body, ind, ctxkind):
                 out.append(f"{pad}do {kw} {{" + ", ".join(f"{n}(): {w}" for n, w in items) + "}")
         elif k == "draw":
             out.append(f"{pad}_symx_draw(DiscreteRange({st[1]}, {st[2]}))")
+        elif k == "drawkw":
+            out.append(f"{pad}_symx_draw(DiscreteRange({st[1]}, {st[2]}, weights={tuple(st[3])!r}))")
         elif k == "whilecond":
             out.append(f"{pad}while _symx_cond({st[1]!r}):")
             out += body_text(st[2], ind + 4, ctxkind)
@@ -229,6 +233,8 @@ def program_text(P):
         if sub.get("terminate_after"):
             vn, units = sub["terminate_after"]
             setup.append(f"        terminate after _symx_val({vn!r}) {units}")
+        if sub.get("require_always"):
+            setup.append(f"        require always _symx_cond({sub['require_always']!r})")
         if sub.get("terminate_when"):
             setup.append(f"        terminate when _symx_cond({sub['terminate_when']!r})")
         if sub.get("terminate_sim_when"):
@@ -251,6 +257,8 @@ def program_text(P):
         L.append("        record _symx_log('record') as rec")
     if P.get("monitor") is not None:
         L.append("        require monitor Mon()")
+    if P.get("require_always"):
+        L.append(f"        require always _symx_cond({P['require_always']!r})")
     if P.get("terminate_when"):
         L.append(f"        terminate when _symx_cond({P['terminate_when']!r})")
     if P.get("terminate_sim_when"):
@@ -392,6 +400,9 @@ class Ref:
             elif k == "draw":
                 self.rng_requests.append(("randint", st[1], st[2], self.t))
                 self.ev("draw")
+            elif k == "drawkw":
+                self.rng_requests.append(("choices", tuple(st[3]), self.t))
+                self.ev("draw")
             elif k in ("dochoose", "doshuffle"):
                 remaining = list(st[1])
                 while remaining:
@@ -519,6 +530,9 @@ class Ref:
         actions_log = []
         while True:
             term = None
+            # 1a. temporal requirements already violated?
+            if P.get("require_always") and not self.cond(P["require_always"]):
+                raise RefReject("require always")
             # 1. compose blocks of running scenarios
             if limit is not None and elapsed >= limit:
                 term = "scenario: time limit"
@@ -556,7 +570,10 @@ class Ref:
             if self.max_steps and self.t >= self.max_steps:
                 return "time limit", actions_log
             # 5. behaviors in schedule order
-            order = [agents[i] for i in self.perm] if self.perm is not None else agents
+            perm = self.perm
+            if perm is not None and self.t % 2 == 1:
+                perm = list(reversed(perm))
+            order = [agents[i] for i in perm] if perm is not None else agents
             acts = {}
             for a in order:
                 if a in finished:
@@ -611,6 +628,8 @@ class SubScenario:
         elapsed = 0
         comp = ref.run_body(sub["compose"], "compose") if sub.get("compose") is not None else None
         while True:
+            if sub.get("require_always") and not ref.cond(sub["require_always"]):
+                raise RefReject("require always (sub-scenario)")
             if limit is not None and elapsed >= limit:
                 return
             elapsed += 1
